@@ -572,8 +572,9 @@ fn has_comment_deep(n: &SyntaxNode) -> bool {
 
 fn import_keep_node(node: &SyntaxNode, out: &mut Vec<bool>) {
     if node.kind() == K::ModuleImport {
-        // must the items keep their order? (a comment in the item region, or a name bound twice)
-        let mut in_items = false;
+        // must the items keep their order? ("imports that contain comments or bind the same name twice":
+        // a comment anywhere in the import statement, or a name bound twice)
+        let mut in_items = true;
         let mut comment = false;
         let mut names: Vec<String> = Vec::new();
         let mut dup = false;
